@@ -234,34 +234,28 @@ impl StreamAlphaNode {
                 WindowType::Sliding => {
                     let cutoff_time = current_time.saturating_sub(window_duration_ms);
 
-                    // Remove events older than cutoff
-                    while let Some(event) = self.events.front() {
-                        if event.metadata.timestamp < cutoff_time {
-                            self.events.pop_front();
-                        } else {
-                            break;
-                        }
-                    }
+                    // Remove events older than cutoff (arrival order is not timestamp
+                    // order, so expired events are not necessarily at the front)
+                    self.events
+                        .retain(|event| event.metadata.timestamp >= cutoff_time);
                 }
                 WindowType::Tumbling => {
                     let window_start = (current_time / window_duration_ms) * window_duration_ms;
 
                     // If we've moved to a new window, clear old events
                     if self.last_window_start != 0 && window_start != self.last_window_start {
-                        self.events.clear();
+                        // The event that triggered the roll-over was already added and
+                        // belongs to the new window: drop only what precedes it.
+                        self.events
+                            .retain(|event| event.metadata.timestamp >= window_start);
                         self.last_window_start = window_start;
                     } else if self.last_window_start == 0 {
                         self.last_window_start = window_start;
                     }
 
                     // Remove events from previous windows
-                    while let Some(event) = self.events.front() {
-                        if event.metadata.timestamp < window_start {
-                            self.events.pop_front();
-                        } else {
-                            break;
-                        }
-                    }
+                    self.events
+                        .retain(|event| event.metadata.timestamp >= window_start);
                 }
                 WindowType::Session { timeout } => {
                     let timeout_ms = timeout.as_millis() as u64;
